@@ -93,7 +93,8 @@ def _assigned_names(stmts_):
 _NEVER_NONE = (ast.BinOp, ast.Compare, ast.List, ast.Tuple, ast.Dict, ast.Set, ast.JoinedStr, ast.ListComp)
 # names of modules: a method call on them changes no local object.  (`self` / `cls` are objects: `self.rescale()`, `setattr(self, ..)`
 # may change any field)
-_MODULE_NAMES = {"np", "numpy", "warnings", "math", "sys", "os", "re", "itertools", "logging", "struct", "nx", "Chem", "AllChem"}
+_MODULE_NAMES = {"np", "numpy", "warnings", "math", "sys", "os", "re", "itertools", "logging", "struct", "nx", "Chem", "AllChem", "functools",
+                 "operator", "collections", "numbers", "copy"}
 
 
 def _mutated_names(st):
